@@ -896,6 +896,59 @@ def replay_input(ctx, inp, d, fid=None):
     return any(f == fid for _, f in vs) if fid else bool(vs)
 
 
+def collation_case(ctx):
+    """A relational table whose text column has a non-binary collation (SQLite `COLLATE NOCASE` / `COLLATE RTRIM`) and rows that
+    differ only in letter case / trailing blanks: they are different cells, so the table read through rr:tableName must give the
+    same statements as the same rows in a CSV file (a reader that lets the DBMS compare rows, e.g. SELECT DISTINCT, loses them)."""
+    import sqlite3
+    import morph_kgc
+    d = os.path.join(ctx.tmp, 'collation')
+    os.makedirs(d, exist_ok=True)
+    rows = [('1', 'abc'), ('1', 'ABC'), ('2', 'x'), ('2', 'x  '), ('3', 'Q')]
+    db = os.path.join(d, 'c.sqlite')
+    if os.path.exists(db):
+        os.remove(db)
+    con = sqlite3.connect(db)
+    con.execute('CREATE TABLE T (ID TEXT COLLATE RTRIM, V TEXT COLLATE NOCASE, W TEXT COLLATE RTRIM)')
+    con.executemany('INSERT INTO T VALUES (?, ?, ?)', [(i, v, v) for i, v in rows])
+    con.commit()
+    con.close()
+    csvp = os.path.join(d, 't.csv')
+    with open(csvp, 'w', encoding='utf-8', newline='') as f:
+        import csv as _csv
+        w = _csv.writer(f, quoting=_csv.QUOTE_ALL)
+        w.writerow(['ID', 'V', 'W'])
+        w.writerows([(i, v, v) for i, v in rows])
+    body = '''  rr:subjectMap [ rr:template "http://ex/s/{ID}" ];
+  rr:predicateObjectMap [ rr:predicate <http://ex/v>; rr:objectMap [ %s "V" ] ];
+  rr:predicateObjectMap [ rr:predicate <http://ex/w>; rr:objectMap [ %s "W" ] ] .
+'''
+    pre = '@prefix rr: <http://www.w3.org/ns/r2rml#> . @prefix rml: <http://semweb.mmlab.be/ns/rml#> . @prefix ql: <http://semweb.mmlab.be/ns/ql#> .\n'
+    m_sql = os.path.join(d, 'sql.ttl')
+    with open(m_sql, 'w') as f:
+        f.write(pre + '<http://ex/TS> rr:logicalTable [ rr:tableName "T" ];\n' + body % ('rr:column', 'rr:column'))
+    m_csv = os.path.join(d, 'csv.ttl')
+    with open(m_csv, 'w') as f:
+        f.write(pre + f'<http://ex/TC> rml:logicalSource [ rml:source "{csvp}"; rml:referenceFormulation ql:CSV ];\n' + body % ('rml:reference', 'rml:reference'))
+    head = '[CONFIGURATION]\nnumber_of_processes=1\nlogging_level=CRITICAL\nna_values=\ninfer_sql_datatypes=no\n'
+    res = {}
+    for name, sec in (('csv', f'[DS]\nmappings={m_csv}\n'), ('sql table', f'[DS]\nmappings={m_sql}\ndb_url=sqlite:///{db}\n')):
+        try:
+            res[name] = {t.strip() for t in morph_kgc.materialize_set(head + sec)}
+        except Exception as e:   # noqa: BLE001
+            res[name] = {f'{type(e).__name__}: {str(e)[:200]}'}
+    want = set()
+    for i, v in rows:
+        want.add(f'<http://ex/s/{i}> <http://ex/v> "{v}"')
+        want.add(f'<http://ex/s/{i}> <http://ex/w> "{v}"')
+    inp = {'kind': 'collation'}
+    ctx.case(['collation'], nontrivial=True, kind='relational table with NOCASE / RTRIM collations vs CSV')
+    ctx.traces_validated += 2
+    for name, got in res.items():
+        if got != want:
+            ctx.violation(f'{name}: rows that differ only in letter case / trailing blanks: missing {sorted(want - got)[:3]}, unexpected {sorted(got - want)[:3]}', inp)
+
+
 def run(ctx, lean, findings):
     rng = ctx.rng
     drv = ctx.get_driver() if ctx.model_available else None
@@ -913,6 +966,7 @@ def run(ctx, lean, findings):
         i12_sql(ctx, drv, rng, ctx.budget(25, 800) * mult)
         i12_typed(ctx, drv, rng, ctx.budget(64, 2400) * mult)
     # ---- direct oracle
+    collation_case(ctx)
     t_oracle = ctx.elapsed()
     tlimit = ctx.budget(42, 600) * (2 if ctx.escalate else 1)
     n = ctx.budget(90, 4000) * mult
@@ -946,4 +1000,8 @@ def run(ctx, lean, findings):
 
 
 def replay(ctx, data):
+    if data.get('input', {}).get('kind') == 'collation':
+        before = len(ctx.violations)
+        collation_case(ctx)
+        return len(ctx.violations) > before
     return replay_input(ctx, data['input'], os.path.join(ctx.tmp, 'rp'))
